@@ -39,6 +39,7 @@ type program struct {
 	Order   []string                   // names in production order (inputs, inits, node outputs)
 	IR      int64                      // ir_version of the rendered model (0 = the usual one)
 	Opsets  []*onnx.OperatorSetIdProto // opset imports of the rendered model (nil = the usual one)
+	NoNames bool                       // nodes are rendered without names
 	Shadow  map[string]bool            // initializers that are also graph inputs
 	nameSeq int
 	r       *gen.R
@@ -120,7 +121,7 @@ func (p *program) addNode(n progNode, outHints ...string) ([]string, bool) {
 
 // Graph renders the program; outputs lists the declared graph outputs.
 func (p *program) Graph(outputs []string) *mon.Graph {
-	g := &mon.Graph{Inputs: p.Inputs, Inits: p.Inits, IR: p.IR, Opsets: p.Opsets}
+	g := &mon.Graph{Inputs: p.Inputs, Inits: p.Inits, IR: p.IR, Opsets: p.Opsets, NoNames: p.NoNames}
 	for _, n := range p.Nodes {
 		g.Nodes = append(g.Nodes, n.G)
 	}
@@ -772,6 +773,9 @@ func genProgramX(r *gen.R, maxNodes int, rich bool) *program {
 	}
 	if r.Chance(0.3) { // what Run computes does not depend on the IR version the file declares
 		p.IR = int64(r.PickInt(1, 2, 3, 4, 6, 8, 9, 10, -1))
+	}
+	if r.Chance(0.3) { // node names are optional
+		p.NoNames = true
 	}
 	if rich && r.Chance(0.25) { // the default domain may be spelled "" or "ai.onnx"; other domains have their own versions
 		switch r.Intn(5) {
